@@ -114,6 +114,12 @@ AppendFile(t, p, d) ==
   IF r.e # "ok" THEN [r EXCEPT !.b = "append/" \o r.b]
   ELSE Ok(None, [t EXCEPT ![p].d = t[p].d \o d, ![p].mt = "*"], "append/ok")
 
+\* OpenFile(O_WRONLY|O_CREATE|O_APPEND) + Write(d) + Close: the file is created when missing, the bytes land at its end
+CreateAppend(t, p, d, perm) ==
+  LET r == OpenFile(t, p, Flag("WO", TRUE, FALSE, FALSE, TRUE), perm) IN
+  IF r.e # "ok" THEN [r EXCEPT !.b = "createappend/" \o r.b]
+  ELSE Ok(None, [r.t EXCEPT ![p].d = r.t[p].d \o d, ![p].mt = "*"], "createappend/" \o r.b)
+
 Remove(t, p) ==
   IF p = Root THEN Fail("OTHER", p, t, "remove/root")
   ELSE LET a == AncErr(t, p) IN
@@ -226,6 +232,7 @@ Eval(t, c) ==
     [] c.op = "open"      -> OpenFile(t, c.p, c.f, c.perm)
     [] c.op = "writefile" -> WriteFile(t, c.p, c.d, c.perm)
     [] c.op = "append"    -> AppendFile(t, c.p, c.d)
+    [] c.op = "createappend" -> CreateAppend(t, c.p, c.d, c.perm)
     [] c.op = "remove"    -> Remove(t, c.p)
     [] c.op = "removeall" -> RemoveAll(t, c.p)
     [] c.op = "rename"    -> Rename(t, c.p, c.q)
